@@ -695,7 +695,7 @@ func init() {
 		Real: []string{"pppoe.LCPStateMachine", "pppoe.IPCPStateMachine", "pppoe.IPV6CPStateMachine", "their time.AfterFunc restart timers (virtual clock)",
 			"pppoe.ParseLCPPacket/ParseLCPOptions/Serialize"},
 		Stub:         []string{"peer (harness-generated packets)", "IP pool behind IPCP (fixed-address model)", "PPPoE session/transport (sendPacket callback)"},
-		Rule:         "cases: random event/packet/sleep sequences (4-30 ops) over lcp/ipcp/ipv6cp with tape-chosen timer-vs-driver ordering; non-trivial = >=3 operations completed and (a fault fired or the scheduler switched tasks more than twice); distinct = distinct (case hash, schedule fingerprint)",
+		Rule:         "cases: random event/packet/sleep sequences (4-30 ops) over lcp/ipcp/ipv6cp with tape-chosen timer-vs-driver ordering, an administrative close/down from a second task racing the receive path, and the automaton's own state reports (callbacks, optionally yielding) recorded; non-trivial = >=3 operations completed and (a fault fired or the scheduler switched tasks more than twice); distinct = distinct (case hash, schedule fingerprint)",
 		QuickRuns:    40000,
 		ThoroughRuns: 4000000,
 		Assumptions: []string{"packets are only delivered while the lower layer is up", "an acknowledgement is a Configure-Ack whose identifier matches the automaton's latest Configure-Request and repeats its options",
